@@ -1,14 +1,15 @@
 #!/usr/bin/env python3
-"""Regenerates /verif/seeded/RESULTS.md from seeded/matrix_runs.log (lines 'RESULT <change> vs <check>: rc=<n> <keys>' appended by
+"""Regenerates /verif/seeded/RESULTS.md from seeded/matrix_runs.txt (lines 'RESULT <change> vs <check>: rc=<n> <keys>' appended by
 tools/mutmatrix.sh runs; for one (change, check) pair the LAST line wins) and updates each meta.json."""
 import re, json, os
 root = '/verif/seeded'
 res = {}
-for l in open(os.path.join(root, 'matrix_runs.log')):
+for l in open(os.path.join(root, 'matrix_runs.txt')):
     m = re.match(r'RESULT (\S+) vs (C\d+): rc=(\d+) ?(.*)', l)
     if m:
         res.setdefault(m.group(1), {})[m.group(2)] = (int(m.group(3)), m.group(4).strip())
 notes = {
+ 'C05-C': "outside C05's quantifier (sequential histories of puts and lookups on one running instance; lookups that do not read the file leave no trace a restart could use): the same change is C09-C and is **caught by C09** (`C09:startup:lru-order-not-by-atime`, `C09:uploads:later-eviction-not-in-atime-order`)",
  'C03-B': "caught before fix a7a8355 (`C03:sequential:reserved-never-released`); on the repaired tree the change no longer breaks the property (the handler now closes the pipe reader on return, so the orphaned Put fails and releases its reservation; the sub-agent's demonstration passes with the change applied)",
 }
 rows = []
@@ -27,10 +28,10 @@ for d in sorted(os.listdir(root)):
     verdict = notes.get(d) or ('; '.join(parts) if parts else 'not run yet')
     meta['checked_with'] = {"how": f"tools/mutmatrix.sh {d} [checks] — scratch worktree of /repo HEAD + patch, harness built with -modfile against it, quick tier, VERIF_SEED=1; in-place procedure: tools/mutcheck.sh seeded/{d}/patch.diff {prop}", "result": verdict}
     json.dump(meta, open(mp, 'w'), indent=1)
-    origin = 'check author' if '-own' in d else ('sub-agent, round 2' if d[-1] in 'CD' else 'sub-agent, round 1')
+    origin = 'check author' if '-own' in d else ('sub-agent, round 3' if d[-1] in 'EF' else 'sub-agent, round 2' if d[-1] in 'CD' else 'sub-agent, round 1')
     rows.append((d, origin, (meta.get('title') or '').replace('|', '/'), verdict.replace('|', '/')))
 with open(os.path.join(root, 'RESULTS.md'), 'w') as f:
-    f.write("# Seeded changes and which check catches them\n\nRound 1 (`-A`, `-B`) and round 2 (`-C`, `-D`) were written by independent sub-agents from the property text only (round 2 was told the titles of round 1 and asked for other mechanisms); `-ownN` were written by the check author. Every sub-agent change was confirmed in a scratch worktree (`tools/confirm_mutant.sh`): compiles, existing suite passes with it, demonstration fails with it and passes without it. Results: quick tier, seed 1 (`tools/mutmatrix.sh`; raw lines in `matrix_runs.log`).\n\n| change | origin | what it is | result |\n|---|---|---|---|\n")
+    f.write("# Seeded changes and which check catches them\n\nRound 1 (`-A`, `-B`) and round 2 (`-C`, `-D`) were written by independent sub-agents from the property text only (rounds 2 and 3 were told the titles of the earlier rounds and asked for other mechanisms; round 3 = `-E`, `-F`); `-ownN` were written by the check author. Every sub-agent change was confirmed in a scratch worktree (`tools/confirm_mutant.sh`): compiles, existing suite passes with it, demonstration fails with it and passes without it. Results: quick tier, seed 1 (`tools/mutmatrix.sh`; raw lines in `matrix_runs.txt`).\n\n| change | origin | what it is | result |\n|---|---|---|---|\n")
     for r in rows: f.write(f"| {r[0]} | {r[1]} | {r[2]} | {r[3]} |\n")
 caught = sum(1 for r in rows if 'caught' in r[3]); print(len(rows), 'changes,', caught, 'caught by at least one check')
 print([r[0] for r in rows if 'caught' not in r[3]])
